@@ -441,7 +441,18 @@ func (w *World) NoteRecv(ci int, pk *Pkt, res kit.TxResult, relayer kit.Account)
 		}
 	}
 	// packets sent by the callback (e.g. the agent contract forwarding the tokens)
+	for _, n := range w.ObservePackets(ci, res) {
+		n.RefundTo = pk.RefundTo
+		n.Parent = pk
+		pk.Nested = append(pk.Nested, n)
+	}
+}
+
+// ObservePackets records every packet sent by chain ci in a transaction result (EventSendPacket), reading
+// token, amount and receiver from the packet's transfer data and the fee from the packet contract.
+func (w *World) ObservePackets(ci int, res kit.TxResult) []*Pkt {
 	c := w.Chains[ci]
+	var out []*Pkt
 	for _, bz := range kit.SentPackets(res) {
 		p := kit.DecodePacket(bz)
 		if p.SrcChain != c.ChainID {
@@ -449,7 +460,7 @@ func (w *World) NoteRecv(ci int, pk *Pkt, res kit.TxResult, relayer kit.Account)
 		}
 		n := &Pkt{ID: len(w.Pkts), Bz: bz, P: p, T: Triple{p.SrcChain, p.DstChain, p.Sequence}, SrcIdx: ci, DstIdx: w.Idx(p.DstChain),
 			Amount: big.NewInt(0), Fee: big.NewInt(0), Sender: kit.Account{Addr: common.HexToAddress(p.Sender)}, Call: "", SentAt: c.Header.Height,
-			RefundTo: pk.RefundTo, Parent: pk}
+			RefundTo: common.HexToAddress(p.Sender)}
 		var td packettypes.TransferData
 		if err := td.ABIDecode(p.TransferData); err == nil {
 			n.Amount = new(big.Int).SetBytes(td.Amount)
@@ -461,8 +472,9 @@ func (w *World) NoteRecv(ci int, pk *Pkt, res kit.TxResult, relayer kit.Account)
 		ft, fa := c.PacketFee(p.DstChain, p.Sequence)
 		n.FeeTok, n.Fee = ft, fa
 		w.Pkts = append(w.Pkts, n)
-		pk.Nested = append(pk.Nested, n)
+		out = append(out, n)
 	}
+	return out
 }
 
 // ByTriple finds an observed packet.
